@@ -570,7 +570,12 @@ class DcmMetaExtension(Nifti1Extension):
         dictionaries).
         '''
         result = klass(dcm_meta_ecode, '{}')
-        result._content = runtime_repr
+        try:
+            result._content = runtime_repr
+        except AttributeError:
+            #Newer nibabel keeps the runtime representation in '_object' and
+            #exposes '_content' as a read-only property
+            result._object = runtime_repr
         result.check_valid()
         return result
 
